@@ -46,6 +46,15 @@ for line in sys.stdin:
             model = core.load_model(combo, dtype=cmd["dtype"], platform="dll")
             I = direct_model.call_kernel(model.make_kernel([q]), {"background": 0.0, "A_scale": 1.0, "B_scale": 0.0})
             out["values"] = [float(v) for v in I]
+        elif cmd.get("via") == "modelpath":
+            # the plugin named by its bare name (found through SAS_MODELPATH, as SasView's plugin directory is) as a
+            # component of a model expression
+            os.environ["SAS_MODELPATH"] = os.path.dirname(plugin)
+            bare = os.path.basename(plugin)[:-3]
+            expr = [bare + "+sphere", bare + "+" + bare][int(cmd.get("variant", 0)) % 2]
+            model = core.load_model(expr, dtype=cmd["dtype"], platform="dll")
+            I = direct_model.call_kernel(model.make_kernel([q]), {"background": 0.0, "A_scale": 1.0, "B_scale": 0.0})
+            out["values"] = [float(v) for v in I]
         elif cmd.get("via") == "composite":
             # the plugin as one component of a model expression whose other component is flagged double-only
             model = core.load_model(plugin + "+hardsphere", dtype=cmd["dtype"], platform="dll")
